@@ -183,15 +183,22 @@ Proof.
 Qed.
 
 (* ------------------------------------------------------------------ deletion of a reference *)
+Lemma hit_own_tombstone me rid d e : edge_hit (ref_tombstone me rid d e) e = true.
+Proof.
+  unfold edge_hit, ref_tombstone. cbn [ed_src ed_ent ed_label ed_dest ed_cdate].
+  rewrite !N.eqb_refl, Z.eqb_refl. unfold oent_eqb. destruct (e_ent e); cbn [opt_eqb]; rewrite ?N.eqb_refl; reflexivity.
+Qed.
+
 Theorem delete_reference_agree defs me now src ea :
   violations12 (CDelRef defs me now src ea) (run_C12 (CDelRef defs me now src ea)) = [].
 Proof.
   unfold run_C12, violations12, del_sends. destruct (dn_kind src) eqn:Hk; [|reflexivity].
   destruct (dn_room src) as [rid|] eqn:Hr; [|reflexivity].
   unfold validate_deletion. cbn [validate_dnodes validate_dupd validate_dedges de_kind de_ent de_room de_author de_date]. rewrite Hk, Hr.
-  unfold edel_ok, ref_tombstone. cbn [ed_ent ed_room ed_author ed_date ed_src ed_label ed_dest ed_cdate e_ent e_src e_label e_dest e_cdate s_edges find].
-  unfold edge_hit at 1. cbn [ed_ent ed_src ed_label ed_dest ed_cdate e_ent e_src e_label e_dest e_cdate e_author].
-  rewrite !N.eqb_refl, Z.eqb_refl. unfold oent_eqb. cbn [opt_eqb]. rewrite N.eqb_refl. cbn [andb e_author].
+  set (edge := {| e_tag := 3%N; e_src := 100%N; e_ent := Some (dn_ent src); e_label := 1%N; e_dest := 300%N;
+                  e_cdate := now - 5; e_author := ea; e_sig_ok := true |}).
+  unfold edel_ok. cbn [s_edges find]. rewrite hit_own_tombstone.
+  unfold ref_tombstone. cbn [ed_ent ed_room ed_author ed_date]. unfold edge. cbn [e_ent e_author].
   unfold validate_node. cbn [n_too_big n_room n_ent n_author n_mdate required_right]. rewrite N.eqb_refl. cbn [negb].
   destruct (find_room (build_rooms defs) rid) as [r|] eqn:Er.
   - pose proof (check_del_ok_iff me now (build_rooms defs) (dn_ent src) rid (dn_author src) r Er) as Hn.
@@ -211,3 +218,139 @@ Proof.
       * cbn [verdict_code Z.eqb]. destruct (can r me _ _ (needed (N.eqb ea me))); reflexivity.
   - unfold check_del. rewrite Er. reflexivity.
 Qed.
+
+(* ------------------------------------------------------------------ field values: request text -> JSON -> peer *)
+(* the two listed classes, as conditions on the request and the data model: an explicit null;
+   a Json field given a scalar (by a literal or by its default) *)
+Definition lit_clean (f : lfield) (l : option lit) : bool :=
+  match l with
+  | Some LNull => false
+  | Some (LStr _ (Some k)) => match f_type (lf f) with TJson => negb (is_scalar k) | _ => true end
+  | _ => true
+  end.
+Definition default_typed (f : lfield) : bool :=
+  match lf_default f with Some v => value_ok (f_type (lf f)) v | None => true end.
+Definition short_of (f : lfield) : N := f_short (lf f).
+
+Lemma local_value_typed f l v :
+  lit_clean f l = true -> default_typed f = true -> local_value f l = Some (Some v) -> value_ok (f_type (lf f)) v = true.
+Proof.
+  unfold lit_clean, default_typed, local_value. intros Hc Hd.
+  destruct l as [[| | |b js|]|].
+  - destruct (f_type (lf f)); intros H; inversion H; reflexivity.
+  - destruct (f_type (lf f)); intros H; inversion H; reflexivity.
+  - destruct (f_type (lf f)); intros H; inversion H; reflexivity.
+  - destruct (f_type (lf f)) eqn:Et; intros H; try discriminate.
+    + destruct b; inversion H. reflexivity.
+    + inversion H. reflexivity.
+    + destruct js as [k|]; [|discriminate]. inversion H; subst. destruct v; simpl in Hc; try discriminate; reflexivity.
+  - discriminate.
+  - destruct (f_nullable (lf f)); [discriminate|]. destruct (lf_default f); [|discriminate]. intros H. inversion H; subst. exact Hd.
+Qed.
+
+Lemma local_value_absent f l : local_value f l = Some None -> f_nullable (lf f) = true.
+Proof.
+  unfold local_value. destruct l as [[| | |b js|]|].
+  - destruct (f_type (lf f)); discriminate.
+  - destruct (f_type (lf f)); discriminate.
+  - destruct (f_type (lf f)); discriminate.
+  - destruct (f_type (lf f)); try discriminate; [destruct b; discriminate|destruct js; discriminate].
+  - destruct (f_nullable (lf f)); discriminate.
+  - destruct (f_nullable (lf f)); [reflexivity|]. destruct (lf_default f); discriminate.
+Qed.
+
+Lemma local_store_keys fs lits : forall j, local_store fs lits = Some j ->
+  forall k v, In (k, v) j -> In k (map short_of fs).
+Proof.
+  induction fs as [|f tl IH]; simpl; intros j Hs k v Hin.
+  - inversion Hs; subst. contradiction.
+  - destruct (local_value f (lget lits (f_short (lf f)))) as [[w|]|]; [| |discriminate];
+    destruct (local_store tl lits) as [j'|]; try discriminate; inversion Hs; subst.
+    + destruct Hin as [Hin|Hin]; [inversion Hin; subst; left; reflexivity|right; eapply IH; eauto].
+    + right. eapply IH; eauto.
+Qed.
+
+Lemma jget_absent j k : (forall v, ~ In (k, v) j) -> jget j k = None.
+Proof.
+  unfold jget. intros H. destruct (find (fun p => N.eqb (fst p) k) j) as [[k' v]|] eqn:E; [|reflexivity].
+  apply find_some in E. destruct E as [Hin He]. simpl in He. apply N.eqb_eq in He. subst k'. exfalso. eapply H; eauto.
+Qed.
+Lemma jget_cons_other j k k' v : k <> k' -> jget ((k, v) :: j) k' = jget j k'.
+Proof. intros H. unfold jget. simpl. destruct (N.eqb k k') eqn:E; [apply N.eqb_eq in E; contradiction|reflexivity]. Qed.
+Lemma jget_cons_same j k v : jget ((k, v) :: j) k = Some v.
+Proof. unfold jget. simpl. rewrite N.eqb_refl. reflexivity. Qed.
+
+Lemma local_store_conform lits : forall fs j,
+  NoDup (map short_of fs) ->
+  forallb (fun f => lit_clean f (lget lits (short_of f))) fs = true ->
+  forallb default_typed fs = true ->
+  local_store fs lits = Some j -> forallb (field_ok j) (map lf fs) = true.
+Proof.
+  induction fs as [|f tl IH]; intros j Hnd Hc Hd Hs; [reflexivity|].
+  simpl in Hs, Hc, Hd. apply andb_prop in Hc. destruct Hc as [Hc1 Hc2]. apply andb_prop in Hd. destruct Hd as [Hd1 Hd2].
+  inversion Hnd as [|? ? Hnot Hnd']; subst.
+  destruct (local_value f (lget lits (f_short (lf f)))) as [[w|]|] eqn:Lv; [| |discriminate];
+  destruct (local_store tl lits) as [j'|] eqn:Ls; try discriminate; inversion Hs; subst.
+  - simpl. apply andb_true_intro. split.
+    + unfold field_ok. rewrite jget_cons_same. eapply local_value_typed; eauto.
+    + specialize (IH j' Hnd' Hc2 Hd2 eq_refl). rewrite forallb_forall in IH. apply forallb_forall. intros g Hg.
+      specialize (IH g Hg). unfold field_ok in *. rewrite jget_cons_other; [exact IH|].
+      intros Heq. apply Hnot. apply in_map_iff in Hg. destruct Hg as [g' [<- Hg']].
+      apply in_map_iff. exists g'. split; [unfold short_of; congruence|assumption].
+  - simpl. apply andb_true_intro. split.
+    + unfold field_ok. rewrite jget_absent.
+      * rewrite (local_value_absent _ _ Lv). reflexivity.
+      * intros v Hin. apply Hnot. eapply local_store_keys; eauto.
+    + apply IH; auto.
+Qed.
+
+Theorem json_agree fs lits :
+  NoDup (map short_of fs) ->
+  forallb (fun f => lit_clean f (lget lits (short_of f))) fs = true ->
+  forallb default_typed fs = true ->
+  violations12 (CJson fs lits) (run_C12 (CJson fs lits)) = [].
+Proof.
+  intros Hnd Hc Hd. unfold run_C12. destruct (local_store fs lits) as [j|] eqn:Hs; [|reflexivity].
+  unfold conform. rewrite (local_store_conform lits fs j Hnd Hc Hd Hs). reflexivity.
+Qed.
+
+(* ------------------------------------------------------------------ closed witnesses *)
+Local Open Scope N_scope.
+Definition fld (s : N) (t : ftype) (nullable : bool) (d : option jval) : lfield :=
+  {| lf := {| f_short := s; f_type := t; f_nullable := nullable; f_default := match d with Some _ => true | None => false end |}; lf_default := d |}.
+(* K1: `i: null` on a nullable Integer field *)
+Definition w12_null : c12case := CJson [fld 32 TString false None; fld 33 TInt true None] [(32, LStr false None); (33, LNull)].
+(* K2: `j: "5"` on a Json field; a Json field whose default is "5" *)
+Definition w12_scalar : c12case := CJson [fld 32 TString false None; fld 33 TJson true None] [(32, LStr false None); (33, LStr false (Some JInt))].
+Definition w12_scalar_default : c12case := CJson [fld 32 TJson false (Some JInt)] [].
+(* K3: key 1 authored the row and has the own-rows right only; the mutation removes the reference
+   key 2 attached to it *)
+Definition w12_ref : c12case :=
+  CWrite [(1, [EvGroup 1; EvUser 1 1 10%Z true; EvUser 1 2 10%Z true; EvRight 1 1 10%Z true false])]
+         [(1, [{| f_short := 32; f_type := TString; f_nullable := false; f_default := false |}])] 1
+         {| h_kind := KNormal; h_ent := 1; h_room := Some 1; h_date := 20%Z; h_has_node := true; h_too_big := false;
+            h_old := Some {| o_room := Some 1; o_author := 1 |}; h_edge_dels := 2 |} 1 [2; 1].
+
+Example witnesses12 :
+  violations12 w12_null (run_C12 w12_null) = [1%Z] /\
+  violations12 w12_scalar (run_C12 w12_scalar) = [2%Z] /\
+  violations12 w12_scalar_default (run_C12 w12_scalar_default) = [2%Z] /\
+  violations12 w12_ref (run_C12 w12_ref) = [3%Z] /\ run_C12 w12_ref = [0; 1; 1; 1]%Z.
+Proof. repeat split; vm_compute; reflexivity. Qed.
+
+(* non-vacuity: accepted on both sides, refused on both sides *)
+Definition w12_ok : c12case :=
+  CWrite [(1, [EvGroup 1; EvUser 1 1 10%Z true; EvRight 1 1 10%Z true false]); (2, [EvGroup 1; EvUser 1 1 10%Z true; EvRight 1 0 10%Z true true])]
+         [(1, [{| f_short := 32; f_type := TString; f_nullable := false; f_default := false |}])] 1
+         {| h_kind := KNormal; h_ent := 1; h_room := Some 1; h_date := 20%Z; h_has_node := true; h_too_big := false;
+            h_old := Some {| o_room := Some 2; o_author := 1 |}; h_edge_dels := 1 |} 2 [1].
+Definition w12_refused : c12case :=
+  CWrite [(1, [EvGroup 1; EvUser 1 1 10%Z true; EvRight 1 1 10%Z true false])]
+         [(1, [{| f_short := 32; f_type := TString; f_nullable := false; f_default := false |}])] 1
+         {| h_kind := KNormal; h_ent := 1; h_room := Some 1; h_date := 20%Z; h_has_node := true; h_too_big := false;
+            h_old := Some {| o_room := Some 1; o_author := 3 |}; h_edge_dels := 0 |} 1 [].
+Example nonvacuous12 :
+  run_C12 w12_ok = [0; 1; 2; 1]%Z /\ spec_C12 w12_ok (run_C12 w12_ok) = true /\
+  run_C12 w12_refused = [1; 0; 1; 0]%Z /\ spec_C12 w12_refused (run_C12 w12_refused) = true /\
+  run_C12 (CJson [fld 32 TString false None; fld 33 TFloat true None] [(32, LStr false None); (33, LInt)]) = [1; 1; 4; 3]%Z.
+Proof. repeat split; vm_compute; reflexivity. Qed.
